@@ -2,6 +2,8 @@ import PartituraModel.Wire
 import PartituraModel.Model.NoteArray
 import PartituraModel.Model.NoteArrayMaps
 import PartituraModel.Model.NoteArrayBack
+import PartituraModel.Model.NoteArrayTs
+import PartituraModel.Model.NoteArrayF64
 
 open Wire NoteArray
 
@@ -136,6 +138,32 @@ def parseARow : P ARow := do
   let p ← int; let bt ← int
   pure { onsetBeat := ob, durBeat := db, onsetDiv := od, durDiv := dd, pitch := p, tsBeatType := bt }
 
+/-- a row of an array with signature columns: `ob db od dd pitch ts_beats ts_beat_type ks_fifths ks_mode` -/
+def parseXRow : P ARow := do
+  let ob ← rat; let db ← rat; let od ← int; let dd ← int
+  let p ← int; let tb ← int; let bt ← int; let kf ← int; let km ← int
+  pure { onsetBeat := ob, durBeat := db, onsetDiv := od, durDiv := dd, pitch := p, tsBeatType := bt,
+         tsBeats := tb, ksFifths := kf, ksMode := km }
+
+def fmtDots (l : List Int) : String := ".".intercalate (l.map fmtInt)
+
+/-- the exact part of a row of the table that comes back: `r:onset/duration/pitch/ts_beats/ts_beat_type/ks_fifths/ks_mode` -/
+def fmtXRow (r : Row) : String :=
+  "[" ++ ",".intercalate [fmtRat r.onsetQuarter, fmtRat r.onsetBeat, fmtRat r.durQuarter, fmtRat r.durBeat,
+    "r:" ++ "/".intercalate ([r.onsetDiv, r.durDiv, r.pitch, r.tsBeats, r.tsBeatType, r.ksFifths, r.ksMode].map fmtInt)] ++ "]"
+
+def leRowTriple (a b : Row) : Bool := leTriple (a.onsetDiv, a.durDiv, a.pitch) (b.onsetDiv, b.durDiv, b.pitch)
+
+def fmtXOut (x : XOut) : String :=
+  "[d:" ++ fmtNat x.divs ++
+  ",m:" ++ ";".intercalate ((isort (fun (a b : Int × Int) => decide (a.1 < b.1) || (decide (a.1 = b.1) && decide (a.2 ≤ b.2))) x.measures).map
+      fun m => fmtInt m.1 ++ "-" ++ fmtInt m.2) ++
+  ",t:" ++ ";".intercalate (x.tss.map fun t => fmtDots [t.1, t.2.1, t.2.2]) ++
+  ",k:" ++ ";".intercalate (x.kss.map fun k => fmtDots [k.1, k.2.1, Model.keyModeToInt k.2.2]) ++
+  ",n:" ++ ";".intercalate ((isort (fun (a b : Nat × Nat) => decide (a.1 < b.1) || (decide (a.1 = b.1) && decide (a.2 ≤ b.2))) x.pieces).map
+      fun m => fmtNat m.1 ++ "-" ++ fmtNat m.2) ++
+  "," ++ fmtList fmtXRow (isort leRowTriple x.rows) ++ "]"
+
 def handle (ts : List String) : String :=
   match ts with
   | "part" :: entry :: rest =>
@@ -147,6 +175,19 @@ def handle (ts : List String) : String :=
       | "func" => fmtRes o (.ofOption o.divs (rowsC p.1 p.2 o))
       | "ensure" => fmtRes o (ensureNoteArray false o (.part p.1 p.2))
       | _ => "bad-request"
+  | "partf" :: rest =>
+    -- the float columns as numpy stores them, bit for bit (binary64 evaluation of the maps, binary32 store)
+    match run (do let o ← parseOpts; let p ← parsePart; pure (o, p)) rest with
+    | none => "bad-request"
+    | some (o, p) => fmtRes o (.ofOption o.divs (rowsF p.1 p.2 o))
+  | "restsf" :: rest =>
+    match run (do let o ← parseOpts; let p ← parsePart; pure (o, p)) rest with
+    | none => "bad-request"
+    | some (o, p) => fmtRes o (.ofOption false (restRowsF p.1 p.2 { o with divs := false }))
+  | "f64" :: rest =>
+    match run rat rest with
+    | none => "bad-request"
+    | some r => fmtRat (f64round r)
   | "score" :: entry :: rest =>
     match run (do
         let u ← bool; let o ← parseOpts
@@ -217,6 +258,19 @@ def handle (ts : List String) : String :=
         "[a:" ++ fmtInt (if ts.isSome && decide (0 < b.anacrusis) then b.anacrusis else 0) ++
         ",m:" ++ (match b.m1 with | some e => fmtInt e | none => "-") ++ "," ++
         fmtList (fun (x : (Int × Int × Int) × (Rat × Rat)) => fmtList fmtRat [x.2.1, x.2.2]) notes ++ "]"
+  | "invx" :: rest =>
+    -- arrays with changing signature columns: the created part (divisions, measures, signatures) and its note array
+    match run (do
+        let hb ← bool; let hd ← bool; let ht ← bool; let hk ← bool
+        let d ← opt nat
+        let tsl ← list (do let s ← int; let b ← int; let bt ← int; pure (s, b, bt))
+        let est ← bool; let san ← bool
+        let a ← list parseXRow; pure (hb, hd, ht, hk, d, tsl, est, san, a)) rest with
+    | none => "bad-request"
+    | some (hb, hd, ht, hk, d, tsl, est, san, a) =>
+      match fromArrayX hb hd ht hk a d tsl est san with
+      | .error _ => "err"
+      | .ok x => fmtXOut x
   | "dfb" :: rest =>
     match run (list (do let o ← rat; let d ← rat; pure (o, d))) rest with
     | none => "bad-request"
